@@ -459,7 +459,8 @@ pub fn process(db: &mut Db, ix: &Instruction, signers: &[Pubkey]) -> std::result
                 Some(e) => Err(TxError::Runtime(e)),
                 None => {
                     for (k, a) in writes {
-                        db.set(k, a);
+                        // the runtime deletes accounts left without lamports at the end of a transaction
+                        db.set(k, if a.lamports == 0 { Acc::wallet(0) } else { a });
                     }
                     Ok(())
                 }
